@@ -480,4 +480,25 @@ example : ∃ (c : Cfg) (history : List AMsg), history.length = 2 ∧
     { items := [{ typ := 1, flags := 0x40 }, { typ := 2, flags := 0x40, segs := [2] }], nlri := 1 }],
    rfl, by decide⟩
 
+/-! ## C06_withdrawals_carry_path_ids — the route KEY of what a contained UPDATE removes -/
+
+/-- Under treat-as-withdraw every path handed to the RIBs is a withdrawal, and it carries the path
+    identifier of the NLRI it stands for — for the NLRI field, MP_REACH_NLRI, WITHDRAWN ROUTES and
+    MP_UNREACH_NLRI alike (with ADD-PATH the RIBs match a withdrawal on prefix AND path identifier;
+    without it every identifier is 0). -/
+theorem C06_withdrawals_carry_path_ids (c : Cfg) (m : AMsg) (l : List AttrObs)
+    (h : sessionAction c m = .withdrawAll l)
+    (hne : isEOR l m.wdIds.length m.nlriIds.length = false) :
+    effectPaths c m = some (((m.nlriIds ++ lastIds l 14) ++ (m.wdIds ++ lastIds l 15)).map (fun i => (true, i))) := by
+  unfold effectPaths
+  rw [h]
+  simp [processPaths, hne, List.map_append]
+
+example : effectPaths ⟨true, true, false, false, true, true⟩
+    { wd := 1, wdIds := [9], nlri := 1, nlriIds := [7],
+      items := [{ typ := 1, flags := 0x40, origin := 7 }, { typ := 2, flags := 0x40, segs := [2] },
+                { typ := 3, flags := 0x40, nh := [10, 0, 0, 1] },
+                { typ := 14, flags := 0x80, afi := 2, safi := 1, npfx := 2, ids := [5, 6] }] }
+    = some [(true, 7), (true, 5), (true, 6), (true, 9)] := by decide
+
 end C06
